@@ -5,11 +5,12 @@ import PymocaVerif.Lemmas.Cli
 Property theorems over the model `Cli.main` of `tools/compiler.py` (`Model/Cli.lean`), for
 invocations with any number of paths, files, options and requested models.
 
-* `Variant.fixed` is the code with `proposed_fixes/C26-1.diff`; for it the property holds for
-  every invocation (`exit_counts`, `per_model_independent`, `sympy_written`).
-* `Variant.asis` is the code as it is; `exit_counts_asis_partial` proves the property outside
-  three input classes, and `asis_*` characterise the code on exactly those classes (the open
-  findings C26-F1 … C26-F4): the hypotheses of the partial theorem are necessary.
+* `Variant.fixed` is the code as it is (commit c313463 = `proposed_fixes/C26-1.diff`); for it
+  the property holds for every invocation (`exit_counts`, `per_model_independent`,
+  `sympy_written`, `argparse_is_2`).
+* `Variant.old` is the code before that commit; `exit_counts_old_partial` proves the property
+  outside three input classes, and `old_*` characterise that code on exactly those classes
+  (the findings C26-F1 … C26-F4, now fixed): each change of the commit is necessary.
 -/
 namespace PymocaVerif.Cli
 
@@ -25,8 +26,8 @@ theorem argparse_is_2 (v : Variant) (inv : Inv)
 example : (⟨.ok, .sympy, false, [⟨false, []⟩], ["eggs"], []⟩ : Inv).argparse = .ok ∧
     (⟨.ok, .sympy, false, [⟨false, []⟩], ["eggs"], []⟩ : Inv).target ≠ .none := by decide
 
-/-- **Exit status = usage errors + files with parse errors + failing models** (code with the
-    proposed fix), for every invocation argparse accepts; in particular 0 on full success. -/
+/-- **Exit status = usage errors + files with parse errors + failing models** (the code as it
+    is), for every invocation argparse accepts; in particular 0 on full success. -/
 theorem exit_counts (inv : Inv) (hap : inv.argparse = .ok)
     (hm : ¬ (inv.target ≠ .none ∧ inv.models = [])) :
     ∃ w, main .fixed inv = .ret (usageCount inv + parseErrorFiles inv + failingModels inv) w := by
@@ -78,7 +79,7 @@ theorem sympy_written (inv : Inv) (hap : inv.argparse = .ok) (ht : inv.target = 
   simp only [if_neg hm']
   simp [hu0, hf, ht, hfil, failingModels, hu, hp, parseAll_fixed, sympyLoop_fixed, modelFails_sympy]
 
-/-- **Per-model independence** (code with the proposed fix): when nothing stops the tool
+/-- **Per-model independence** (the code as it is): when nothing stops the tool
     before the model loop, the status of an invocation requesting `ms` is the sum of the
     statuses of the same invocation requesting each model alone — a model succeeds or fails
     the same way whatever else is requested. -/
@@ -110,19 +111,19 @@ theorem per_model_independent (inv : Inv) (hap : inv.argparse = .ok)
 example : usageCount ⟨.ok, .none, true, [⟨true, [⟨"A", 0, .ok⟩]⟩], [], []⟩ = 0 ∧
     parseErrorFiles ⟨.ok, .none, true, [⟨true, [⟨"A", 0, .ok⟩]⟩], [], []⟩ = 0 := by decide
 
-/-- **The code as it is**, outside the input classes of the open findings: no listed file
+/-- **The code before c313463**, outside the input classes of the findings it fixed: no listed file
     makes `parse_file` raise (C26-F4), `-t sympy` only with models whose translation succeeds
     (C26-F1, C26-F2), `-t casadi` only with models that have at least one listed file of that
     name (C26-F3).  *Missing for the full property:* exactly these three classes — see
-    `asis_sympy_exception_escapes`, `asis_sympy_failures_not_counted`,
-    `asis_casadi_counts`, `asis_undecodable_escapes`. -/
-theorem exit_counts_asis_partial (inv : Inv) (hap : inv.argparse = .ok)
+    `old_sympy_exception_escapes`, `old_sympy_failures_not_counted`,
+    `old_casadi_counts`, `old_undecodable_escapes`. -/
+theorem exit_counts_old_partial (inv : Inv) (hap : inv.argparse = .ok)
     (hm : ¬ (inv.target ≠ .none ∧ inv.models = []))
     (h4 : ∀ f ∈ allFiles inv, f.parse ≠ .raise)
     (h12 : inv.target = .sympy → ∀ m ∈ inv.models, m.sympy = .ok)
     (h3 : inv.target = .casadi → ∀ m ∈ inv.models,
             (allFiles inv).filter (fun f => f.stem = m.name) ≠ []) :
-    ∃ w, main .asis inv = .ret (usageCount inv + parseErrorFiles inv + failingModels inv) w := by
+    ∃ w, main .old inv = .ret (usageCount inv + parseErrorFiles inv + failingModels inv) w := by
   have hm' : ¬(inv.target ≠ .none ∧ inv.models.isEmpty = true) := by
     simpa [List.isEmpty_iff] using hm
   unfold main
@@ -136,45 +137,45 @@ theorem exit_counts_asis_partial (inv : Inv) (hap : inv.argparse = .ok)
       · have hfil : (allFiles inv).filter (fun f => !decide (f.parse = .ok)) = [] := by
           simpa [List.filter_eq_nil_iff] using hb
         cases ht : inv.target
-        · simp [hu, hf, ht, hfil, usageCount, parseErrorFiles, failingModels, parseAll_asis _ h4,
+        · simp [hu, hf, ht, hfil, usageCount, parseErrorFiles, failingModels, parseAll_old _ h4,
             flattenLoop_eq, modelFails_none]
         · have hno : ∀ m ∈ inv.models, m.sympy ≠ .raise := by
             intro m hmm; rw [h12 ht m hmm]; decide
           have hall : inv.models.filter (fun m => m.sympy != .ok) = [] := by
             simp only [List.filter_eq_nil_iff]
             intro m hmm; simp [h12 ht m hmm]
-          simp [hu, hf, ht, hfil, usageCount, parseErrorFiles, failingModels, parseAll_asis _ h4,
-            sympyLoop_asis _ _ _ hno, modelFails_sympy, hall]
+          simp [hu, hf, ht, hfil, usageCount, parseErrorFiles, failingModels, parseAll_old _ h4,
+            sympyLoop_old _ _ _ hno, modelFails_sympy, hall]
         · have hc : inv.models.filter
-                (fun m => asisCasadiCounts m ((allFiles inv).filter (fun f => f.stem = m.name)))
+                (fun m => oldCasadiCounts m ((allFiles inv).filter (fun f => f.stem = m.name)))
               = inv.models.filter (modelFails .casadi (allFiles inv)) := by
             apply List.filter_congr
             intro m hmm
-            exact asisCasadiCounts_eq m _ (h3 ht m hmm)
-          simp [hu, hf, ht, usageCount, parseErrorFiles, failingModels, casadiLoop_asis, hc]
+            exact oldCasadiCounts_eq m _ (h3 ht m hmm)
+          simp [hu, hf, ht, usageCount, parseErrorFiles, failingModels, casadiLoop_old, hc]
       · cases ht : inv.target
-        · simp [hu, hf, ht, hb, usageCount, parseErrorFiles, failingModels, parseAll_asis _ h4]
-        · simp [hu, hf, ht, hb, usageCount, parseErrorFiles, failingModels, parseAll_asis _ h4]
+        · simp [hu, hf, ht, hb, usageCount, parseErrorFiles, failingModels, parseAll_old _ h4]
+        · simp [hu, hf, ht, hb, usageCount, parseErrorFiles, failingModels, parseAll_old _ h4]
         · have hc : inv.models.filter
-                (fun m => asisCasadiCounts m ((allFiles inv).filter (fun f => f.stem = m.name)))
+                (fun m => oldCasadiCounts m ((allFiles inv).filter (fun f => f.stem = m.name)))
               = inv.models.filter (modelFails .casadi (allFiles inv)) := by
             apply List.filter_congr
             intro m hmm
-            exact asisCasadiCounts_eq m _ (h3 ht m hmm)
-          simp [hu, hf, ht, usageCount, parseErrorFiles, failingModels, casadiLoop_asis, hc]
+            exact oldCasadiCounts_eq m _ (h3 ht m hmm)
+          simp [hu, hf, ht, usageCount, parseErrorFiles, failingModels, casadiLoop_old, hc]
   · refine ⟨[], ?_⟩
     simp [hu, usageCount, parseErrorFiles, failingModels]
 
 -- non-vacuity: flatten-only with a failing model and casadi with an ambiguous one satisfy the hypotheses
-example : main .asis ⟨.ok, .casadi, true, [⟨true, [⟨"A", 0, .ok⟩, ⟨"A", 1, .ok⟩, ⟨"B", 1, .ok⟩]⟩], [],
+example : main .old ⟨.ok, .casadi, true, [⟨true, [⟨"A", 0, .ok⟩, ⟨"A", 1, .ok⟩, ⟨"B", 1, .ok⟩]⟩], [],
     [⟨"A", true, .ok, [(0, true), (1, true)]⟩, ⟨"B", true, .ok, [(1, false)]⟩]⟩ = .ret 2 [] := by decide
 
-/-- C26-F1 on the model: as-is, with `-t sympy` a model whose translation raises makes the
+/-- C26-F1 on the model: before the fix, with `-t sympy` a model whose translation raises makes the
     exception escape `main` (nothing is counted, later models are not attempted). -/
-theorem asis_sympy_exception_escapes (inv : Inv) (hap : inv.argparse = .ok)
+theorem old_sympy_exception_escapes (inv : Inv) (hap : inv.argparse = .ok)
     (ht : inv.target = .sympy) (hu : usageCount inv = 0) (hp : parseErrorFiles inv = 0)
     (h4 : ∀ f ∈ allFiles inv, f.parse ≠ .raise)
-    (hr : ∃ m ∈ inv.models, m.sympy = .raise) : main .asis inv = .raised := by
+    (hr : ∃ m ∈ inv.models, m.sympy = .raise) : main .old inv = .raised := by
   have hu0 : usageErrors inv = 0 := by unfold usageCount at hu; omega
   have hf : ¬ (allFiles inv).isEmpty = true := by
     intro hf; simp [usageCount, hu0, hf] at hu
@@ -189,15 +190,15 @@ theorem asis_sympy_exception_escapes (inv : Inv) (hap : inv.argparse = .ok)
   unfold main
   rw [hap]
   simp only [if_neg hm']
-  simp [hu0, hf, ht, hfil, parseAll_asis _ h4, sympyLoop_asis_raise _ _ _ hr]
+  simp [hu0, hf, ht, hfil, parseAll_old _ h4, sympyLoop_old_raise _ _ _ hr]
 
-/-- C26-F2 on the model: as-is, with `-t sympy` and no raising model the status is 0 however
+/-- C26-F2 on the model: before the fix, with `-t sympy` and no raising model the status is 0 however
     many translations report failure. -/
-theorem asis_sympy_failures_not_counted (inv : Inv) (hap : inv.argparse = .ok)
+theorem old_sympy_failures_not_counted (inv : Inv) (hap : inv.argparse = .ok)
     (ht : inv.target = .sympy) (hms : inv.models ≠ []) (hu : usageCount inv = 0)
     (hp : parseErrorFiles inv = 0) (h4 : ∀ f ∈ allFiles inv, f.parse ≠ .raise)
     (hr : ∀ m ∈ inv.models, m.sympy ≠ .raise) :
-    main .asis inv = .ret 0 ((inv.models.filter (fun m => m.sympy == .ok)).map (·.name)) := by
+    main .old inv = .ret 0 ((inv.models.filter (fun m => m.sympy == .ok)).map (·.name)) := by
   have hu0 : usageErrors inv = 0 := by unfold usageCount at hu; omega
   have hf : ¬ (allFiles inv).isEmpty = true := by
     intro hf; simp [usageCount, hu0, hf] at hu
@@ -210,14 +211,14 @@ theorem asis_sympy_failures_not_counted (inv : Inv) (hap : inv.argparse = .ok)
   unfold main
   rw [hap]
   simp only [if_neg hm']
-  simp [hu0, hf, ht, hfil, parseAll_asis _ h4, sympyLoop_asis _ _ _ hr]
+  simp [hu0, hf, ht, hfil, parseAll_old _ h4, sympyLoop_old _ _ _ hr]
 
-/-- C26-F3 on the model: as-is, `-t casadi` counts ambiguous models and failing transfers, but
+/-- C26-F3 on the model: before the fix, `-t casadi` counts ambiguous models and failing transfers, but
     not the models for which no listed file exists. -/
-theorem asis_casadi_counts (inv : Inv) (hap : inv.argparse = .ok) (ht : inv.target = .casadi)
+theorem old_casadi_counts (inv : Inv) (hap : inv.argparse = .ok) (ht : inv.target = .casadi)
     (hms : inv.models ≠ []) (hu : usageCount inv = 0) :
-    main .asis inv = .ret ((inv.models.filter
-      (fun m => asisCasadiCounts m ((allFiles inv).filter (fun f => f.stem = m.name)))).length) [] := by
+    main .old inv = .ret ((inv.models.filter
+      (fun m => oldCasadiCounts m ((allFiles inv).filter (fun f => f.stem = m.name)))).length) [] := by
   have hu0 : usageErrors inv = 0 := by unfold usageCount at hu; omega
   have hf : ¬ (allFiles inv).isEmpty = true := by
     intro hf; simp [usageCount, hu0, hf] at hu
@@ -226,14 +227,14 @@ theorem asis_casadi_counts (inv : Inv) (hap : inv.argparse = .ok) (ht : inv.targ
   unfold main
   rw [hap]
   simp only [if_neg hm']
-  simp [hu0, hf, ht, casadiLoop_asis]
+  simp [hu0, hf, ht, casadiLoop_old]
 
-/-- C26-F4 on the model: as-is, a listed file on which `parse_file` raises (undecodable
+/-- C26-F4 on the model: before the fix, a listed file on which `parse_file` raises (undecodable
     bytes) makes the exception escape `main` unless `-t casadi` is given. -/
-theorem asis_undecodable_escapes (inv : Inv) (hap : inv.argparse = .ok)
+theorem old_undecodable_escapes (inv : Inv) (hap : inv.argparse = .ok)
     (hm : ¬ (inv.target ≠ .none ∧ inv.models = [])) (ht : inv.target ≠ .casadi)
     (hu : usageErrors inv = 0) (hr : ∃ f ∈ allFiles inv, f.parse = .raise) :
-    main .asis inv = .raised := by
+    main .old inv = .raised := by
   have hm' : ¬(inv.target ≠ .none ∧ inv.models.isEmpty = true) := by
     simpa [List.isEmpty_iff] using hm
   have hf : ¬ (allFiles inv).isEmpty = true := by
@@ -243,17 +244,17 @@ theorem asis_undecodable_escapes (inv : Inv) (hap : inv.argparse = .ok)
   rw [hap]
   simp only [if_neg hm']
   cases h : inv.target
-  · simp [hu, hf, parseAll_asis_raise _ hr]
-  · simp [hu, hf, parseAll_asis_raise _ hr]
+  · simp [hu, hf, parseAll_old_raise _ hr]
+  · simp [hu, hf, parseAll_old_raise _ hr]
   · exact absurd h ht
 
--- the four classes are inhabited, and there the as-is status differs from the count
-example : main .asis ⟨.ok, .sympy, true, [⟨true, [⟨"A", 0, .ok⟩]⟩], [], [⟨"Nope", false, .raise, []⟩]⟩ = .raised := by decide
-example : main .asis ⟨.ok, .sympy, true, [⟨true, [⟨"A", 0, .ok⟩]⟩], [], [⟨"A", true, .retFalse, []⟩]⟩ = .ret 0 [] ∧
+-- the four classes are inhabited, and there the old status differs from the count
+example : main .old ⟨.ok, .sympy, true, [⟨true, [⟨"A", 0, .ok⟩]⟩], [], [⟨"Nope", false, .raise, []⟩]⟩ = .raised := by decide
+example : main .old ⟨.ok, .sympy, true, [⟨true, [⟨"A", 0, .ok⟩]⟩], [], [⟨"A", true, .retFalse, []⟩]⟩ = .ret 0 [] ∧
     main .fixed ⟨.ok, .sympy, true, [⟨true, [⟨"A", 0, .ok⟩]⟩], [], [⟨"A", true, .retFalse, []⟩]⟩ = .ret 1 [] := by decide
-example : main .asis ⟨.ok, .casadi, true, [⟨true, [⟨"A", 0, .ok⟩]⟩], [], [⟨"Nope", false, .ok, []⟩]⟩ = .ret 0 [] ∧
+example : main .old ⟨.ok, .casadi, true, [⟨true, [⟨"A", 0, .ok⟩]⟩], [], [⟨"Nope", false, .ok, []⟩]⟩ = .ret 0 [] ∧
     main .fixed ⟨.ok, .casadi, true, [⟨true, [⟨"A", 0, .ok⟩]⟩], [], [⟨"Nope", false, .ok, []⟩]⟩ = .ret 1 [] := by decide
-example : main .asis ⟨.ok, .none, true, [⟨true, [⟨"L", 0, .raise⟩]⟩], [], []⟩ = .raised ∧
+example : main .old ⟨.ok, .none, true, [⟨true, [⟨"L", 0, .raise⟩]⟩], [], []⟩ = .raised ∧
     main .fixed ⟨.ok, .none, true, [⟨true, [⟨"L", 0, .raise⟩]⟩], [], []⟩ = .ret 1 [] := by decide
 
 end PymocaVerif.Cli
